@@ -50,8 +50,10 @@ package criteria_mixing
 //@   ensures [shape] fresh(result) && fresh(*result) && len(*result) == len(allAlternatives)
 //@   ensures [extended] forall i int :: 0 <= i && i < len(allAlternatives) ==> model.extendedBy((*result)[i], allAlternatives[i], newCriterion.Id) && fresh((*result)[i].Criteria)
 
+// what "made of the current state" means for this bias (the abstract model.actsOn)
+//@ pred mixingActs(b model.Bias, out *model.DecisionMakingParams, in *model.DecisionMakingParams) = len(in.Criteria) < 2 ? out == in : (len(out.Criteria) == len(in.Criteria) + 1 && forall k int :: 0 <= k && k < len(in.Criteria) ==> out.Criteria[k] == in.Criteria[k])
 //@ func (*CriteriaMixing).Apply
-//@   refines model.Bias.Apply
+//@   refines model.Bias.Apply with actsOn=mixingActs
 //@   property C18 C07 C01 C09
 //@   requires model.coherent(*listener, *current) && model.coherent(*listener, *original) && len(original.Criteria) > 0
 //@   requires forall i int, j int :: 0 <= i && i < j && j < len(current.ConsideredAlternatives) ==> current.ConsideredAlternatives[i].Id != current.ConsideredAlternatives[j].Id
